@@ -150,11 +150,31 @@ def make_form(inst, kind, rng, keep_neginf_pairs=False):
             n, m, "; ".join(ext_list(r) for r in inst.R), "; ".join(qlist2(rows) for rows in inst.Q), qlit(inst.beta))
         return f
     pairs = [(s, a) for s in range(n) for a in range(m) if inst.R[s][a] is not None or (keep_neginf_pairs and rng.random() < 0.5)]
+    f.order = "sorted"
     if "shuffled" in kind:
-        for _ in range(5):
-            rng.shuffle(pairs)
-            if pairs != sorted(pairs):
+        # orders: fully random; states non-decreasing but actions permuted INSIDE each state (defeats a sortedness
+        # test that only looks at s_indices); actions descending inside each state
+        mode = rng.choice(["random", "within_state", "within_state", "within_state_desc"])
+        srt = sorted(pairs)
+        for _ in range(6):
+            if mode == "random":
+                rng.shuffle(pairs)
+            else:
+                groups = {}
+                for sa in srt:
+                    groups.setdefault(sa[0], []).append(sa)
+                pairs = []
+                for st in sorted(groups):
+                    g = groups[st]
+                    if mode == "within_state_desc":
+                        g = g[::-1]
+                    else:
+                        rng.shuffle(g)
+                    pairs += g
+            if pairs != srt:
                 break
+            mode = "random"
+        f.order = mode if pairs != srt else "sorted"
     f.pairs = pairs
     f.s = [p[0] for p in pairs]; f.a = [p[1] for p in pairs]
     f.R = np.array([f2np(inst.R[s][a]) for s, a in pairs], dtype=float)
@@ -274,7 +294,7 @@ def run(ctx):
     warnings.filterwarnings("ignore")
     from quantecon.markov import DiscreteDP, backward_induction
 
-    n_inst = 450 if thorough else 90
+    n_inst = 450 if thorough else 70
     insts = []
     # hand-made corner cases first: single state, all ties, beta in {0,1}
     insts.append(Inst(1, 1, [[Fraction(2)]], [[[Fraction(1)]]], Fraction(1, 2), True, "corner"))
@@ -303,6 +323,8 @@ def run(ctx):
             try:
                 form = make_form(inst, kind, rng, keep_neginf_pairs=(rng.random() < 0.25))
                 ctx.count("form:" + kind)
+                if kind != "product":
+                    ctx.count("pair order:" + form.order)
                 try:
                     ddp = build(form)
                 except Exception as e:
